@@ -67,6 +67,7 @@ func (actorSelf *ActorDef[T]) Send(message T) {
 	if actorSelf.isClosed {
 		return
 	}
+	verifPoint("actor.send.afterClosedCheck", actorSelf)
 
 	actorSelf.ch <- message
 }
@@ -102,8 +103,10 @@ func (actorSelf *ActorDef[T]) GetID() time.Time {
 // Close Close the Actor
 func (actorSelf *ActorDef[T]) Close() {
 	actorSelf.isClosed = true
+	verifPoint("actor.close.flagSet", actorSelf)
 
 	close(actorSelf.ch)
+	verifPoint("actor.close.closed", actorSelf)
 }
 
 // IsClosed Check is Closed
@@ -172,6 +175,7 @@ func (askSelf *AskDef[T, R]) AskOnceWithTimeout(target ActorHandle[interface{}],
 	select {
 	case result = <-ch:
 	case <-time.After(timeout):
+		verifPoint("ask.timeout.fired", askSelf)
 		return result, ErrActorAskTimeout
 	}
 
@@ -187,6 +191,7 @@ func (askSelf *AskDef[T, R]) AskChannel(target ActorHandle[interface{}]) chan R 
 
 // Reply Receiver Reply
 func (askSelf *AskDef[T, R]) Reply(response R) {
+	verifPoint("ask.reply.entry", askSelf)
 	askSelf.ch <- response
 }
 
